@@ -10,12 +10,23 @@ from .common import d_str, d_bool, d_opt, d_list
 
 LEVEL = 'proof'
 
-# Which variant of the simplify_specifiers model mirrors /repo: None = auto-detect by probing the
-# implementation with '>=10,>=9' (the repaired code answers '>=10'); set True/False to force.
+# Which variant of the simplify_specifiers model mirrors the tree under test.  The model has one switch per repair:
+#   fixed (commit 3ca56c7, sort key compares versions): None = auto-detect by probing the implementation with '>=10,>=9'
+#         (the repaired code answers '>=10');
+#   eqv   (finding C17-simplify-eq-string-identity, == specifiers compared by version): None = auto-detect by probing the
+#         implementation with '==1,==1.0' (the repaired code simplifies it, the unrepaired one raises 'inconsistent
+#         specifier set').
+# Set True/False to force.
 FIXED = None
+EQV = None
+EQ_ID = 'C17-simplify-eq-string-identity'
+EQ_CLASS = 'simplify-eq-string-identity'
+EQ_PROBE = '==1,==1.0'
 
 RULE = ('specifier sets: 0..6 specifiers, operator uniform over == != >= > <= <, versions from a pool mixing 9, 10, 1.9, '
-        '1.10, 2.0, 2, 1, 1.0 (string order differs from version order; 2/2.0 and 1/1.0 are one version with two spellings), '
+        '1.10, 2.0, 2, 1, 1.0, 1.9.0 (string order differs from version order; 2/2.0, 1/1.0 and 1.9/1.9.0 are one version with '
+        'two spellings; the corpus and the generated sets hold two and three == specifiers on one version in both '
+        'spellings, alone, with bounds and with !=), '
         'each set drawn from a random 1..4-element sub-pool so that ties, conflicts and collapses occur; requirement lists: '
         '0..4 entries over 3 names per public/private/auto/conflicts list; .pc fields: flags from weighted character classes '
         '(plain, blank, quotes, $, #, backslash, non-ASCII) and paths ${var}/suffix; a case is non-trivial when it has at '
@@ -30,7 +41,10 @@ RULE = ('specifier sets: 0..6 specifiers, operator uniform over == != >= > <= <,
         'quotes / $ / ; / backquote, versions None / empty / given, public and private requirements on two stub packages and '
         'on earlier packages with satisfied and unsatisfied specifier families split across the two lists; a case is one '
         'package in one form (installed / -uninstalled), distinct by build.bfg text + package + form')
-TRUSTED = ('verspec LooseVersion parsing (versions enter the model as their printed form; the order model vparse/lex_leb is '
+TRUSTED = ('variant detection: the two probes of the real simplify_specifiers (harness/c17.py detect_fixed / detect_eqv: '
+           "'>=10,>=9' answers '>=10', '==1,==1.0' is simplified) select which pair (fixed, eqv) of the model is compared with "
+           'the tree under test and whether finding C17-simplify-eq-string-identity applies to it',
+           'verspec LooseVersion parsing (versions enter the model as their printed form; the order model vparse/lex_leb is '
            'compared with verspec on the pool on every run)',
            'R model of the pkgconf 1.8.1 .pc reader (Misc/PcFile.v), validated against /usr/bin/pkg-config on this run',
            'system stage: the reference semantics of a generated project in harness/c17sys.py (ref_pkg / SysProject.expect: what '
@@ -44,6 +58,8 @@ POOL = ['9', '10', '1.9', '1.10', '2.0', '2', '1', '1.0', '0.9', '10.0.1', '1.9.
 PROBES = POOL + ['0', '0.1', '0.9.5', '1.0.1', '1.5', '1.9.1', '1.9.5', '1.10.1', '1.11', '2.0.1', '2.1', '3', '8', '9.0.1',
                  '9.5', '9.10', '10.0.0.1', '10.0.2', '10.1', '11', '100']
 NAMES = ['foo', 'bar', 'libz']
+# other spellings of pool versions (trailing zero components), used to put two == specifiers on one version
+RESPELL = POOL + ['9.0', '10.0', '1.9.0.0', '1.10.0', '2.0.0', '1.0.0', '0.9.0', '10.0.1.0']
 
 
 def opcode(o):
@@ -57,6 +73,84 @@ def detect_fixed():
     return str(simplify_specifiers(SpecifierSet('>=10,>=9'))) == '>=10'
 
 
+_EQV = {}
+_RESPELL = {}
+
+
+def detect_eqv(rep=None):
+    """Does the simplify_specifiers under test compare two == specifiers by VERSION (the repair of finding
+    C17-simplify-eq-string-identity) or as Specifier objects (by the spelling of the version, as first written)?  Found by
+    running the real function on '==1,==1.0' once per process: any simplified set -> by version; ValueError 'inconsistent
+    specifier set ...' -> by spelling.  Anything else (another exception) is reported and counts as 'not repaired'."""
+    if EQV is not None:
+        return EQV
+    if 'v' in _EQV:
+        return _EQV['v']
+    from bfg9000.versioning import simplify_specifiers, SpecifierSet
+    try:
+        r = simplify_specifiers(SpecifierSet(EQ_PROBE))
+        _EQV['v'], _EQV['detail'] = True, '%s -> %s' % (EQ_PROBE, r)
+    except ValueError as e:
+        _EQV['v'], _EQV['detail'] = False, '%s -> ValueError(%s)' % (EQ_PROBE, e)
+        if not str(e).startswith('inconsistent specifier set'):
+            _EQV['detail'] += ' [unexpected message]'
+    except Exception:
+        import traceback
+        _EQV['v'], _EQV['detail'] = False, 'probe failed'
+        if rep is not None:
+            rep.fail('the variant of simplify_specifiers in the tree under test could not be determined (the probe %r raised)'
+                     % EQ_PROBE, {'obligation': 'variant probe', 'traceback': traceback.format_exc()}, found_input=False)
+    return _EQV['v']
+
+
+def own_findings():
+    try:
+        return json.load(open(os.path.join(common.VERIF, 'findings.d', 'C17.json')))
+    except (OSError, ValueError):
+        return []
+
+
+def eq_finding_status():
+    """top-level status of the == finding in findings.d/C17.json ('open' until the repair has landed in /repo)"""
+    for k in own_findings():
+        if k.get('id') == EQ_ID:
+            return k.get('status')
+    return None
+
+
+def model_variant(rep=None):
+    """(fixed, eqv) the simplify MODEL is run with.  eqv: the repaired comparison when the tree under test has it, and also
+    - whatever the tree has - once the finding is recorded as fixed: a tree that lost the repair then disagrees with the
+    model in W:versions / W:reqs as well (next to the failing specifier set the oracle reports)."""
+    return detect_fixed(), bool(detect_eqv(rep) or eq_finding_status() == 'fixed')
+
+
+def wire_variant(fixed, eqv):
+    """the variant argument of ver.simplify / req.split / req.finalize (Misc/MiscPkgTable.v un_fixed / un_eqv)"""
+    return (1 if fixed else 0) + (2 if eqv else 0)
+
+
+def select_findings(rep):
+    """Which known findings apply to THIS run.  findings.d/C17.json is authoritative for its ids (known_findings.json is
+    merged from it by the coordinator).  The == finding depends on the variant of simplify_specifiers under test:
+      repaired tree              -> it counts as FIXED: not in rep.known, no KNOWN-FINDING line, a satisfiable set that is
+                                    rejected is a VIOLATION (with the failing specifier set);
+      unrepaired, status 'open'  -> known finding (KNOWN-FINDING line);
+      unrepaired, status 'fixed' -> a regression: nothing is suppressed, the rejected set is a VIOLATION.
+    Returns (repaired, top-level status)."""
+    repaired = detect_eqv(rep)
+    own = [k for k in own_findings() if k.get('property') == 'C17']
+    ids = set(k['id'] for k in own)
+    rep.known = [k for k in rep.known if k['id'] not in ids]
+    for k in own:
+        if k.get('status') != 'open':
+            continue
+        if k['id'] == EQ_ID and repaired:
+            continue
+        rep.known.append(k)
+    return repaired, eq_finding_status()
+
+
 def gen_specs(rng, rep=None, maxn=6):
     sub = rng.sample(POOL, rng.choice([1, 1, 2, 2, 3, 4]))
     n = rng.choice([0, 1, 2, 2, 3, 3, 4, 5, maxn])
@@ -66,6 +160,19 @@ def gen_specs(rng, rep=None, maxn=6):
         if rep is not None:
             rep.count('op:' + o)
         out.append((o, rng.choice(sub)))
+    # two / three == specifiers on one version in different spellings (what the == comparison decides), next to the rest;
+    # drawn from a generator of its own (seeded from rep.seed in run()) so that the main stream - and with it every case the
+    # later stages generate for a given seed - is the same with and without these additions
+    rr = _RESPELL.get('rng')
+    if out and rr is not None and rr.random() < 0.12:
+        v = rr.choice(out)[1]
+        alts = [w for w in RESPELL if canon_ver(w) == canon_ver(v) and w != v]
+        for w in rr.sample(alts, min(len(alts), rr.choice([1, 1, 2]))):
+            out.insert(rr.randrange(len(out) + 1), ('==', w))
+        if not any(o == '==' and w == v for o, w in out) and rr.random() < 0.7:
+            out.insert(rr.randrange(len(out) + 1), ('==', v))
+        if rep is not None:
+            rep.count('gen:respelled-==')
     return out
 
 
@@ -118,10 +225,15 @@ CORPUS_SPECS = ['>=10,>=9', '>=1.10,>=1.9', '>=1,<=1,!=1', '==1,==1.0', '>=1,<=1
                 '>=1,>=1.0', '', '!=3,>=1', '==2,!=2.0', '>2,<3', '>=2,<2', '<=10,<=9', '<10,<=9', '<=1.10,<1.9', '==1',
                 '==1,==2', '==1,>=1', '==1,>1', '==2,<=2.0', '!=1', '!=1,!=2', '>=1,<=1', '>1,<1', '>=1,<1', '>1,<=1',
                 '>=2,<=1', '>=9,<=10,!=9.5,!=11', '>=1.9,<=1.9,!=1.9.0', '>=2,<=2,!=2.0', '>=2.0,>=2', '<=2.0,<=2',
-                '>2.0,>=2', '>=2.0,>2']
+                '>2.0,>=2', '>=2.0,>2',
+                # two / three == on one version in different spellings: alone, with bounds, with != (finding
+                # simplify-eq-string-identity and its repair); a different version next to them is still inconsistent
+                '==1.0,==1', '==1.0,>=1', '==1,==1.0,>=1,<=1.0', '==1,==1.0,==1.0.0', '==2,==2.0', '==2.0,==2,<=2', '==1,==1.0,==2',
+                '==1,==1.0,!=1.0.0', '==1,==1.0,!=2', '==1,==1.0,>1', '==1,==1.0,<1.0', '==1.9,==1.9.0,>=1.9,<1.10',
+                '==10,==10.0,>=9', '==1,==1.0,==2.0,==2', '==1,==1.0,>=1.0,<=1,!=1.0']
 
 
-def stage_w_versions(rep, rng, n, fixed):
+def stage_w_versions(rep, rng, n, variant):
     from bfg9000.versioning import Version, SpecifierSet
     calls, impl = [], []
     for a in PROBES:
@@ -133,7 +245,7 @@ def stage_w_versions(rep, rng, n, fixed):
         order, r = impl_simplify(t)
         rep.case('s:' + t, len(order) >= 2)
         rep.count('simplify:' + ('Err' if r == 'ValueError' else 'n=%d' % len(r)))
-        calls.append(('ver.simplify', [fixed, order]))
+        calls.append(('ver.simplify', [variant, order]))
         impl.append(r)
         x = rng.choice(PROBES)
         calls.append(('ver.sat', [x, order]))
@@ -146,8 +258,9 @@ def stage_w_versions(rep, rng, n, fixed):
 # ----------------------------------------------------------------------------- oracle: simplify on the implementation
 def classify_simplify(text, rejected=None):
     """Finding classes of a failing specifier set: predicates on the input and on the failure (`rejected`: simplify_specifiers
-    raised ValueError - the open finding simplify-eq-string-identity describes a REJECTION of a satisfiable set, not a wrong
-    simplified set)."""
+    raised ValueError - the finding simplify-eq-string-identity describes a REJECTION of a satisfiable set, not a wrong
+    simplified set).  Whether that class is a known finding in this run depends on the tree under test (select_findings):
+    on a tree that compares == specifiers by version it is not, and the failing set is reported as a VIOLATION."""
     from bfg9000.versioning import Version, SpecifierSet
     ss = list(SpecifierSet(text))
     cls = set()
@@ -165,7 +278,7 @@ def classify_simplify(text, rejected=None):
             cls.add('simplify-eq-drops-ne')
     eqs = [i.version for i in ss if i.operator == '==']
     if any(a != b and Version(a) == Version(b) for a in eqs for b in eqs) and rejected is not False:
-        cls.add('simplify-eq-string-identity')
+        cls.add(EQ_CLASS)
     return tuple(sorted(cls))
 
 
@@ -180,6 +293,10 @@ def oracle_simplify_one(rep, text):
     except ValueError as e:
         r, errtext = None, str(e)
     bad = None
+    eqs = [i.version for i in ss if i.operator == '==']
+    if any(a != b and canon_ver(a) == canon_ver(b) for a in eqs for b in eqs):
+        sat = any(x in ss for x in PROBES)
+        rep.count('oracle:respelled-==:%s:%s' % ('satisfiable' if sat else 'unsatisfiable', 'rejected' if r is None else 'simplified'))
     for x in PROBES:
         want = x in ss
         if r is None:
@@ -234,7 +351,7 @@ def canon_simple(s, canon=False):
     return [s.name, [opcode(s.version.operator), canon_ver(v) if canon else v]]
 
 
-def stage_w_reqs(rep, rng, n, fixed):
+def stage_w_reqs(rep, rng, n, variant):
     from bfg9000.builtins.pkg_config import Requirement, RequirementSet
 
     def mk(lst):
@@ -264,7 +381,7 @@ def stage_w_reqs(rep, rng, n, fixed):
                 except ValueError:
                     res = 'ValueError'
                     rep.count('split:ValueError')
-                calls.append(('req.split', [fixed, single, [r.name, order]]))
+                calls.append(('req.split', [variant, single, [r.name, order]]))
                 impl.append(res)
         # the three lists finalize() returns (spelling of tied bounds canonicalised, see canon_ver)
         try:
@@ -272,7 +389,7 @@ def stage_w_reqs(rep, rng, n, fixed):
                    for rs, single in ((requires, True), (requires_private, True), (conflicts, False))]
         except ValueError:
             res = 'ValueError'
-        calls.append(('req.finalize', [fixed, model_reqs(req), model_reqs(priv), model_reqs(auto), model_reqs(conf)]))
+        calls.append(('req.finalize', [variant, model_reqs(req), model_reqs(priv), model_reqs(auto), model_reqs(conf)]))
         impl.append(res)
 
     def dec2(name, r):
@@ -676,26 +793,25 @@ def load_corpus():
                 CORPUS_FLAGS.append(s)
 
 
-def load_local_findings(rep):
-    """findings.d/C17.json is merged into known_findings.json by the coordinator; until then (and harmlessly after) the
-    open entries are read from the fragment as well."""
-    p = os.path.join(common.VERIF, 'findings.d', 'C17.json')
-    if os.path.exists(p):
-        have = {k['id'] for k in rep.known}
-        rep.known += [k for k in json.load(open(p)) if k.get('status') == 'open' and k['id'] not in have]
-
-
 def run(rep):
     rng = random.Random(rep.seed)
+    _RESPELL['rng'] = random.Random('%s-c17-respell' % rep.seed)
     thorough = rep.tier == 'thorough'
-    load_local_findings(rep)
+    repaired, status = select_findings(rep)
     load_corpus()
     rep.proof_stage(coqchk=thorough)
-    fixed = detect_fixed()
-    rep.stage('variant', simplify_model='fixed=true (repaired code)' if fixed else 'fixed=false (string sort key)')
+    fixed, eqv = model_variant(rep)
+    rep.stage('variant', simplify_model='fixed=true (sort key compares versions)' if fixed else 'fixed=false (string sort key)',
+              eq_comparison_under_test='by version (repaired)' if repaired else 'as Specifier objects, by spelling (as first written)',
+              eq_probe=_EQV.get('detail', 'forced'),
+              eq_model='eqv=true' if eqv else 'eqv=false',
+              eq_finding=('not applicable to this tree (counts as fixed; a rejected satisfiable set is a VIOLATION)' if repaired
+                          else 'known finding (open)' if status == 'open'
+                          else 'recorded as %s: the unrepaired comparison is a regression, nothing is suppressed' % status))
+    variant = wire_variant(fixed, eqv)
     n = 6000 if thorough else 700
-    dis = stage_w_versions(rep, rng, n, fixed)
-    dis += stage_w_reqs(rep, rng, n // 4, fixed)
+    dis = stage_w_versions(rep, rng, n, variant)
+    dis += stage_w_reqs(rep, rng, n // 4, variant)
     found = stage_oracle_simplify(rep, rng, n * (10 if dis else 2))
     dis_pc = stage_w_pc(rep, rng, n)
     found_pc = stage_pkgconf(rep, rng, (2500 if thorough else 250) * (10 if dis_pc else 1))
@@ -719,7 +835,7 @@ def run(rep):
 def replay(rep, path):
     r = json.load(open(path))
     print(json.dumps(r, indent=1)[:2000])
-    load_local_findings(rep)
+    select_findings(rep)
     if r.get('kind') == 'simplify':
         oracle_simplify_one(rep, r['specifiers'])
         return
